@@ -211,6 +211,18 @@ CHECKS["C16"] = (
     "DESIGN.md 6 (C16)",
 )
 
+CHECKS["C19"] = (
+    "model_checking",
+    "exhaustive enumeration of data lengths x contents x offsets x prefixes x all small palettes for hexdump, of definitions x layouts x readers x colour x call forms for dumpstruct, and of widths x boundary integers x endianness spellings for pack/unpack/swap, each against an independent reference",
+    "hexdump: every length 0..66 x 3 contents x 4 offsets x 2 prefixes, string and generator output, equals an independent renderer and the "
+    "bytes recovered from the dump equal the input; all palettes of <=3 (4) entries over 9 lengths x 2 colours change nothing but colour codes. "
+    "dumpstruct: 8 hand-written definitions and every definition of <=2 fields over the wide alphabet, packed/aligned, both readers, colour "
+    "on/off, instance and (type, data) forms: hex part = dump of exactly the value's bytes, every field listed once in order with its value. "
+    "pack/unpack/pN/uN/swap: widths 8..128 x boundary integers (all 8/16-bit ones) x 6 endianness spellings agree with int.to_bytes/from_bytes "
+    "and are mutual inverses.",
+    "DESIGN.md 6 (C19)",
+)
+
 NOT_APPLICABLE = {}
 
 
